@@ -7,23 +7,41 @@
 (*     k = MaxLen-1, plus the sequences of length FreshLen that start on a   *)
 (*     context on which start_page has not been called;                      *)
 (*   -simulate (Sim_Session.cfg): random walks of length MaxLen; the last    *)
-(*     action is forced to be to_return so that one walk prints once.        *)
+(*     action is forced to be to_return so that one walk prints once;        *)
+(*   re-announcement family (Family = "reannounce", Gen_Session_R*.cfg):     *)
+(*     start_page(T0) . w . Producers for EVERY word w of length PosLen over the   *)
+(*     positioning alphabet (start_page / start_section / start_subsection    *)
+(*     over Titles / Sections / Subsections - so every call is also made with *)
+(*     the argument that is current already, with any state to clear before   *)
+(*     it - and one "mark" letter that leaves messages and cookies behind),   *)
+(*     followed by the fixed Producers: one message-producing call of every kind   *)
+(*     (the five application calls, expand() texts recording a warning after  *)
+(*     a pop / a debug / a deeply nested error, parse() texts) and to_return. *)
+(*     Each logged call carries `same`: its argument was the current value.   *)
 EXTENDS MC_Session
 
-CONSTANTS MaxLen, FreshLen, SimMode
+CONSTANTS MaxLen, FreshLen, SimMode,
+          Family,   \* "seq": the families above; "reannounce": the re-announcement family
+          PosLen    \* length of the positioning word of the re-announcement family
 
 VARIABLES hist,
           smcA      \* the as-built strip-marker cache run in parallel (prediction "asis_num")
-gvars == <<title, section, subsection, lists, path, cookies, smc, ret, last, ghost, markers, hist, smcA>>
+gvars == <<title, section, subsection, lists, path, cookies, smc, ret, last, ghost, markers, pos, hist, smcA>>
 
 Snapshot == [title |-> title', section |-> section', subsection |-> subsection',
              lists |-> lists', path |-> path', cookies |-> cookies', ret |-> ret',
-             \* the stamps every message recorded by this call must carry
-             stamp_title |-> StampT(title'), stamp_section |-> StampS(section'),
-             stamp_subsection |-> StampS(subsection')]
+             \* the stamps every message recorded by this call must carry: the documented
+             \* position (declarative reference `pos`), not the fields the code assigns
+             stamp_title |-> StampT(title'), stamp_section |-> StampS(pos'.section),
+             stamp_subsection |-> StampS(pos'.subsection)]
 
 Act(op, a, b, c, d, nw) == [op |-> op, a |-> a, b |-> b, c |-> c, d |-> d, nw |-> nw]
-Log(act, asis) == hist' = Append(hist, [act |-> act, st |-> Snapshot, asis_num |-> asis])
+\* the call re-announces the value that is current before it
+Same(act) == CASE act.op = "start_page" -> SamePage(act.a)
+               [] act.op = "start_section" -> SameSection(act.a)
+               [] act.op = "start_subsection" -> SameSubsection(act.a)
+               [] OTHER -> FALSE
+Log(act, asis) == hist' = Append(hist, [act |-> act, st |-> Snapshot, asis_num |-> asis, same |-> Same(act)])
 
 GInit == Init /\ hist = <<>> /\ smcA = {}
 
@@ -45,7 +63,39 @@ GAny == GStartPage \/ GStartSection \/ GStartSubsection \/ GEmit \/ GExpand \/ G
 \* calls that are legal on a context on which start_page has not been called
 GFresh == GStartSection \/ GStartSubsection \/ GEmit \/ GToReturn \/ GStrip
 
+(* ---------------- re-announcement family ---------------- *)
+TheTitle == CHOOSE t \in Titles : TRUE
+\* the mark letter: a call that leaves two messages and three cookies behind (state that a
+\* following start_page has to clear whatever its title)
+MarkText == Text(<<>>, "p_looppre")
+\* one message-producing call of every kind, then to_return
+Producers == <<Act("emit", "error", "m2", "sid/7", "tr1", <<>>),
+          Act("emit", "warning", "m1", DefaultSortid, "", <<>>),
+          Act("emit", "debug", "m1", DefaultSortid, "", <<>>),
+          Act("emit", "note", "m1", DefaultSortid, "", <<>>),
+          Act("emit", "wiki_notice", "m1", DefaultSortid, "", <<>>),
+          Act("expand", "loop", "", "", "", <<>>),
+          Act("expand", "toomany", "", "", "", <<>>),
+          Act("expand", "argbadfn", "", "", "", <<>>),
+          Act("parse", "p_b", "", "", "", <<>>),
+          Act("parse", "p_looppre", "", "", "", <<>>),
+          Act("to_return", "", "", "", "", <<>>)>>
+GDo(act) ==
+  /\ CASE act.op = "emit" -> Emit(act.a, act.b, act.d, act.c)
+       [] act.op = "expand" -> Expand(Text(act.nw, act.a))
+       [] act.op = "parse" -> Parse(Text(act.nw, act.a))
+       [] act.op = "to_return" -> ToReturn
+  /\ UNCHANGED smcA /\ Log(act, 0)
+GMark == Parse(MarkText) /\ UNCHANGED smcA /\ Log(Act("parse", MarkText.seg, "", "", "", MarkText.nw), 0)
+GPos == GStartPage \/ GStartSection \/ GStartSubsection \/ GMark
+RLen == 1 + PosLen + Len(Producers)
+GNextR ==
+  \/ hist = <<>> /\ StartPage(TheTitle) /\ smcA' = {} /\ Log(Act("start_page", TheTitle, "", "", "", <<>>), 0)
+  \/ Len(hist) \in 1..PosLen /\ GPos
+  \/ Len(hist) > PosLen /\ Len(hist) < RLen /\ GDo(Producers[Len(hist) - PosLen])
+
 GNext ==
+  IF Family = "reannounce" THEN GNextR ELSE
   IF SimMode
   THEN /\ Len(hist) < MaxLen
        /\ IF hist = <<>> THEN GStartPage
@@ -56,7 +106,8 @@ GNext ==
        \/ hist # <<>> /\ ~Started /\ Len(hist) < FreshLen /\ GAny
 GSpec == GInit /\ [][GNext]_gvars
 
-Final == IF SimMode THEN Len(hist) = MaxLen
+Final == IF Family = "reannounce" THEN Len(hist) = RLen ELSE
+         IF SimMode THEN Len(hist) = MaxLen
          ELSE hist # <<>> /\ ((Started /\ Len(hist) = MaxLen) \/ (~Started /\ Len(hist) = FreshLen))
 GenInv == Final => PrintT(<<"CASE", ToJson([hist |-> hist])>>)
 =============================================================================
